@@ -198,12 +198,23 @@ class C15Paths(Harness):
                     yield f"path-{name}-{way}-negzero", dict(cls=name, way=way, negzero=True)
             if name in ("polar", "spherical", "sphere_surface", "cylindrical"):
                 yield f"path-{name}-facade_transformed", dict(cls=name, way="facade_transformed")
+                # (see below)
+                # the angular axes given as a NUMBER of bins (the facades' default form): equal bins over the full angular range
+                yield f"path-{name}-facade-intbins", dict(cls=name, way="facade", intbins=True)
+            if name in ("radial2", "radial3", "azimuthal", "polar"):
+                # separate coordinate arrays holding exactly three observations (a length that equals the dimension of space)
+                yield f"path-{name}-facade-3points", dict(cls=name, way="facade", npoints=3)
             for way in ("find_then_fill", "fill_n_twice") + (("facade_then_fill_n",) if name in ("spherical", "sphere_surface", "cylindrical") else ()):
                 yield f"path-{name}-{way}", dict(cls=name, way=way)
 
     def declare(self, cx, p):
         d = CLS[p["cls"]][1]
         x = {"p": _pt(cx, "p", d), "e": _decl_bins(cx, CLS[p["cls"]][2])}
+        if p.get("intbins"):
+            for k, kind in enumerate(CLS[p["cls"]][2]):
+                if kind in ("phi", "theta"):
+                    top = 2 * math.pi if kind == "phi" else math.pi
+                    x["e"][k] = [0.0, 1 * (top / 2), top]     # what np.linspace(0, top, 3) gives
         if cx.sym:
             cx.assume(*[z3.And(cx.t(c) >= -100, cx.t(c) <= 100) for c in x["p"]])
         if p.get("negzero"):
@@ -253,8 +264,10 @@ class C15Paths(Harness):
                 return {"op": {"raised": r}}
             return {"op": "ok", "freq": r.frequencies.tolist(), "cls": type(r).__name__, "total": r.total}
         if way == "facade":
-            xs = [np.asarray([c], dtype=float) for c in x["p"]]
+            xs = [np.asarray([c] * p.get("npoints", 1), dtype=float) for c in x["p"]]
             data = np.asarray([x["p"]], dtype=float)
+            if p.get("intbins"):
+                bins = [2 if kind in ("phi", "theta") else b for kind, b in zip(CLS[name][2], bins)]
             if name == "polar":
                 r = E.attempt(sp.polar, xs[0], xs[1], radial_bins=bins[0], phi_bins=bins[1])
             elif name == "radial2":
@@ -339,7 +352,7 @@ class C15Paths(Harness):
         memb = [[z3.And(e[k][j] <= ref[k], (ref[k] <= e[k][j + 1]) if j == 1 else (ref[k] < e[k][j + 1])) for j in range(2)] for k in range(D)]
         pre = z3.And(side) if side else z3.BoolVal(True)
         freq = obs["freq"]
-        times = 2 if p["way"] in ("fill_n_twice", "facade_then_fill_n") else 1
+        times = 2 if p["way"] in ("fill_n_twice", "facade_then_fill_n") else p.get("npoints", 1)
         if p["way"] != "find_bin":
             for idx in product_indices([2] * D):
                 inc = z3.And([memb[k][idx[k]] for k in range(D)])
